@@ -99,6 +99,7 @@ func (g *gen) extraFuncs() []Func {
 		out = append(out, Func{Name: tickaName, Params: kp, Results: []Field{{Type: "[3]int"}, {Type: "int"}}, Body: []*Node{
 			g9inc(), retN(&Node{K: "alit", T: "[3]int", A: []*Node{mk, vr("k"), ilit(3)}}, bin("+", mk, ilit(100)))}})
 	}
+	out = append(out, g.extraFuncs3()...)
 	for _, k := range g.fvOrder {
 		out = append(out, *g.funcVars[k])
 	}
